@@ -70,7 +70,8 @@ set_option maxHeartbeats 1000000 in
 /-- a wait call starts: the event is constructed (both for a call of the client and for the wait inside `Get`) -/
 theorem inv_begin (hi : Inv w s) (lo hi' : Nat) (timed inGet : Bool) (hp : s.wpc = .idle)
     (hlh : lo ≤ hi') (hfi : s.fi ≤ lo) (hcalls : s.calls ≠ [] → inGet = false)
-    (hget : inGet = true → s.calls = [] ∧ lo = s.fi ∧ hi' = s.fi + 1 ∧ timed = false ∧ s.w.fin s.fi = .get) :
+    (hget : inGet = true → s.calls = [] ∧ lo = s.fi ∧ hi' = s.fi + 1 ∧ timed = false ∧ s.w.fin s.fi = .get ∧ s.fi < s.w.n)
+    (hhi : (∀ c, c ∈ w.calls → c.hi ≤ w.n) → hi' ≤ s.w.n) :
     Inv w (doBegin s lo hi' timed inGet) := by
   have hal : s.alive = false := by
     cases ha : s.alive with
